@@ -35,6 +35,7 @@ class UB:
         self._callers = None
         self._field_sites = None
         self.trace = {}
+        self.elem_bounds = {}     # reviewed summaries: field name of a Vec/array -> bound of its elements
 
     # ---- indexes ----------------------------------------------------------------------------------
     def field_sites(self):
@@ -97,8 +98,22 @@ class UB:
         ie = self.iter_elem(b, p)
         if ie is not None:
             return ie
+        if pr == ["*"]:
+            return self.local(b, l)       # the value behind a reference produced by a call (e.g. Index::index)
+        # element of a constant table: the table's maximum
+        if any(isinstance(e, dict) and ("i" in e or "ci" in e) for e in pr) and not any(isinstance(e, dict) and "f" in e for e in pr):
+            d = b.single_def(l)
+            if d and d[2] == "assign" and d[3]["k"] == "use":
+                k = op_const(d[3]["op"])
+                if k is not None and k.get("from"):
+                    try:
+                        return max(self.F.const_array(k["from"]))
+                    except Exception:
+                        pass
         # field of an ADT (possibly through derefs / downcasts)
         named = [e for e in pr if isinstance(e, dict) and "f" in e and "n" in e]
+        if named and named[-1]["n"] in self.elem_bounds and isinstance(pr[-1], dict) and ("i" in pr[-1] or "ci" in pr[-1]):
+            return self.elem_bounds[named[-1]["n"]]
         if named:
             fname = named[-1]["n"]
             adt = self.place_adt(b, p)
@@ -440,6 +455,12 @@ class UB:
         if last == "get" and "BitReader" in n or t["callee"].get("trait", "").endswith("ReadBits"):
             w = flow.const_eval(b, a[-1])
             return (1 << w) - 1 if w is not None else cap
+        if re.search(r"(Index::index|IndexMut::index_mut)$", n) and a:
+            # element of a container field with a reviewed element bound
+            o = flow.origin(b, a[0])
+            for f in o.via_fields:
+                if f in self.elem_bounds:
+                    return min(self.elem_bounds[f], cap)
         lc = t["callee"].get("resolved") if t["callee"].get("rlocal") else (t["callee"].get("def") if t["callee"].get("local") else None)
         if lc and lc in self.F.bodies:
             return min(self.ret(lc), cap)
